@@ -14,7 +14,7 @@ LEVEL = 'exploration'
 RULE = ('(a) complete enumeration of all non-empty marked subsets (isotropic: leaves, n <= 6; anisotropic: '
         '(leaf, direction) entries, n <= 4) on every state of the bounded BFS (depth <= 2) over six small meshes, '
         'realised by indicators 1 on the subset / 1e-9 elsewhere with theta placed so that exactly the subset is the '
-        'bulk; (b) Hypothesis cases: mesh spec x bisection history x 1-3 successive marking steps (iso/aniso, theta '
+        'bulk, plus small-integer indicator vectors whose partial sums hit theta^2 x total exactly; (b) Hypothesis cases: mesh spec x bisection history x 1-3 successive marking steps (iso/aniso, theta '
         'in (0,1), plain bisections interleaved between the marking steps, indicator recipes: random, ties from a 3-value set, zeros, all equal, one dominant entry, '
         'threshold-exact vectors). Oracle: exact-rational bulk criterion (all admissible shortest prefixes, rounding '
         'band (n+4) ulp) and, for some admissible set, equality of the resulting leaf set with the reference-model '
@@ -42,6 +42,13 @@ def indicators(recipe, n, theta, two):
         theta = float(np.sqrt((s - 0.5) / sum(eta)))
     elif r == 'equal':
         eta = [float(recipe.get('val', 1.0))] * m
+    elif r == 'exact':
+        # small integers whose descending partial sums hit theta^2 * total exactly (theta = 0.5): the criterion is
+        # decided without any rounding, so a prefix that is one entry too long or too short is visible
+        eta = [1.0] * m
+        c = 1 + (4 - (m % 4)) % 4          # total = c + m - 1 is a multiple of 4
+        eta[recipe.get('pos', 0) % m] = float(c)
+        theta = 0.5
     elif r == 'dominant':
         v = recipe['vals']
         eta = [1e-3 * float(v[k % len(v)]) for k in range(m)]
@@ -71,6 +78,7 @@ def recipes():
         st.builds(lambda v, o: {'r': 'cyc', 'vals': v, 'off': o},
                   st.lists(st.sampled_from([0.0, 0.25, 1.0]), min_size=2, max_size=9), st.integers(0, 8)),
         st.builds(lambda v: {'r': 'equal', 'val': v}, st.sampled_from([1.0, 0.1, 3.0, 1e-7])),
+        st.builds(lambda p: {'r': 'exact', 'pos': p}, st.integers(0, 500)),
         st.builds(lambda v, p: {'r': 'dominant', 'vals': v, 'pos': p}, st.lists(pos, min_size=1, max_size=5), st.integers(0, 500)),
         st.builds(lambda p, q, s: {'r': 'thresh', 'pos': p, 'pos2': q, 'scale': s}, st.integers(0, 500), st.integers(0, 500),
                   st.sampled_from([1.0, 0.7, 3.0, 1e-3])),
@@ -303,15 +311,18 @@ def run(ctx):
             jobs.append((mno, seq, 'iso', n))
         if n <= 4:
             jobs.append((mno, seq, 'aniso', 2 * n))
-    if ctx.quick:
-        jobs = jobs[::3]
     for mno, seq, kind, m in ctx.mine(jobs):
         for mask in range(1, 2**m):
             case = {'kind': 'bfs', 'mesh': meshdrive.BFS_MESHES[mno], 'seq': seq,
                     'marks': [[kind, 0.5, {'r': 'subset', 'mask': mask}]]}
             body(case, rec)
             rec.add('enumerated_subset_cases')
-    n = ctx.share(480 if ctx.quick else 12000)
+        for pos in range(m):
+            body({'kind': 'bfs', 'mesh': meshdrive.BFS_MESHES[mno], 'seq': seq,
+                  'marks': [[kind, 0.5, {'r': 'exact', 'pos': pos}]]}, rec)
+            rec.add('exact_threshold_cases')
+        body({'kind': 'bfs', 'mesh': meshdrive.BFS_MESHES[mno], 'seq': seq, 'marks': [[kind, 0.5, {'r': 'equal', 'val': 1.0}]]}, rec)
+    n = ctx.share(2400 if ctx.quick else 24000)
     explore(ctx, cases(20 if ctx.quick else 50), body, n)
 
 
